@@ -26,6 +26,8 @@ def oracle_factory(cfg_json):
         for x in trace:
             if x["op"][0] == "recv" and x["result"].startswith("ok") and x["op"][1][0] in ("s", "ard"):
                 return f"C04 an unciphered {x['op'][1]} was delivered"
+            if x["op"][0] == "recv" and x["result"].startswith("ok") and x["op"][1][0] == "ggc" and str(x["op"][1][4]).startswith("plain:"):
+                return f"C04 an unciphered APDU inside a general-glo-ciphering envelope was delivered: {x['op'][1]}"
         return None
     return oracle
 
@@ -134,6 +136,14 @@ class C04(fw.Prop):
                             b = q.to_state(st)
                             plain_in = ["recv", ["ard", "0", "mal1"], None] if k == "actRespData" else ["recv", ["s", k], None]
                             yield self.make_case({"cfg": cfg.to_json(), "ops": b + [plain_in], "tag": "plain-answer"})
+                            # ... and the same unprotected encoding put where the ciphertext belongs, under an envelope whose
+                            # security-control byte claims no / partial / full protection
+                            inner = "ard.0.mal1" if k == "actRespData" else f"s.{k}"
+                            for env in (0, 16, 32, 48, 64):
+                                q = PathK(cfg, ek, ak)
+                                b = q.to_state(st)
+                                env_in = ["recv", ["ggc", MT, str(env + (suite if env else 0)), str(q.next_ic() + 3), f"plain:{inner}"], None]
+                                yield self.make_case({"cfg": cfg.to_json(), "ops": b + [env_in, ["send", "getReq", 1]], "tag": "plain-answer-in-envelope"})
         # whatever conformance the meter negotiates, whatever the field values of the request, with and without the
         # dedicated-ciphering option and a dedicated key announced by the caller: the content is the plain encoding of what the
         # caller handed over, under the configured global keys
@@ -156,6 +166,11 @@ class C04(fw.Prop):
             for suite in (0, 1, 2):
                 yield self.make_case({"via": via, "suite": suite, "title": "48455741" + "%08x" % rng.getrandbits(32), "cic": rng.choice([0, 7, 2 ** 31]),
                                       "mic": rng.choice([0, 9]), "maxpdu": rng.choice([500, 65535])})
+        for size in (range(80, 150) if deep else range(95, 125)):
+            # (every ciphered-content length around 128: the length prefix changes form there)
+            cfg = cl.Cfg(ek=(1, 16), ak=(2, 16), pre=True, state="READY", meter_title=MT, cic=5)
+            yield self.make_case({"cfg": cfg.to_json(), "ops": [["send", "setReq", 1, size]], "tag": "payload-size-sweep"})
+            yield self.make_case({"cfg": cfg.to_json(), "ops": [["send", "actReq", 1, size]], "tag": "payload-size-sweep"})
         for size in sizes:
             cfg = cl.Cfg(ek=(1, 16), ak=(2, 16), pre=True, state="READY", meter_title=MT, cic=5)
             yield self.make_case({"cfg": cfg.to_json(), "ops": [["send", "setReq", 1, size]], "tag": "payload-size"})
